@@ -555,13 +555,13 @@ Inductive yv :=
 
 Definition render_z (z : Z) : string := NilZero.string_of_int (Z.to_int z).
 (* a yaml int is an int64/uint64: it always parses as float64 and fits float32's range *)
-Definition int_fi : finfo := mkfi true true true.
+Definition int_fi (z : Z) : finfo := mkfi true true (Z.abs z <? 2 ^ 24).   (* exact in float32, printed as itself *)
 
 Fixpoint yaml_to_json (y : yv) : jv :=
   match y with
   | YNull => JStr "" None     (* toStringKeyMap default case: lang.Repr(nil) = "" -- NOT JSON null *)
   | YBool b => JBool b
-  | YInt z => JNum (render_z z) int_fi
+  | YInt z => JNum (render_z z) (int_fi z)
   | YFloat raw fi => JNum raw fi
   | YStr s pj => JStr s pj
   | YSeq l => JArr (map yaml_to_json l)
@@ -748,3 +748,17 @@ Section Readers.
   Definition unmarshal_reader (n : nat) (t : ty) (chunks : list string) : result val :=
     unmarshal_bytes n t (fold_right append EmptyString chunks).
 End Readers.
+
+(* ------------------------------------------------------------------ histories of calls in one process
+   The code keeps process-wide memos (optionsCache, cacheKeys, defaultCache, structRequiredCache) and a shared
+   jsonUnmarshaler; none of them may influence a result: a call is a function of its own type, document and options.
+   `call`: (canonical-key option used?, type, document) -- conf.Load* / WithCanonicalKeyFunc canonicalise the field
+   keys (Exec.camel_ty is the same map on types), option-less entry points do not. *)
+Definition call := (nat * ty * jv)%type.
+Definition run_call (c : call) : result val := let '(n, t, d) := c in unmarshal n t d.
+Definition run_history (h : list call) : list (result val) := map run_call h.
+
+(* httpx.ParseJsonBody (requests.go:44-52): the body is read whenever there is one (Content-Length > 0 and a JSON
+   content type) -- for every method; without a body the struct is filled from the empty object *)
+Definition parse_json_body (method : string) (body : option jv) (n : nat) (t : ty) : result val :=
+  match body with Some d => unmarshal n t d | None => unmarshal n t (JObj []) end.
